@@ -504,7 +504,59 @@ def b_statcond(V, cfg):
                  notes=["StaticCondensation: A_fm defined as A_ff X for free X (pre-image), A symmetric"])
 
 
-BUILDERS = dict(einsum=b_einsum, mathgeneral=b_mathgeneral, concat=b_concat, scaling=b_scaling, complex=b_complex,
+def b_eigensolve(V, cfg):
+    """Dense EigenSolve with the matrix DEFINED from free eigen-data (pre-image of the class):
+    general:   A := B Q diag(W) Q^-1   (Q free 2x2, explicit 2x2 inverse)
+    symmetric: A := Q diag(W) Q^T with Q the rotation of the rational parameter t (c=(1-t^2)/(1+t^2), s=2t/(1+t^2)).
+    LAPACK is the contract oracle returning exactly (W, Q); sorting, sign and normalisation run for real."""
+    import pymoto as pym
+    n = 2
+    W = V.reals("W", n)
+    if V.symbolic:
+        V.assume(W[0] != W[1], "simple eigenvalues (the module documents that multiplicity is unsupported)")
+    gen = cfg.get("gen", False)
+    if cfg.get("sym", False):
+        t = V.real("t", default=0.4)
+        den = 1 + t * t
+        c_, s_ = (1 - t * t) / den, 2 * t / den
+        Q = np.array([[c_, -s_], [s_, c_]], dtype=object if V.symbolic else float)
+        Qinv = Q.T
+        B = None
+    else:
+        Q = np.asarray(V.reals("Q", (n, n)))
+        detQ = Q[0, 0] * Q[1, 1] - Q[0, 1] * Q[1, 0]
+        if V.symbolic:
+            V.assume(detQ != 0, "eigenvector matrix non-singular")
+            for j in range(n):
+                V.assume(Q[0, j] * Q[0, j] + Q[1, j] * Q[1, j] > 0)
+        Qinv = np.array([[Q[1, 1], -Q[0, 1]], [-Q[1, 0], Q[0, 0]]], dtype=object if V.symbolic else float) / detQ
+        B = None
+        if gen:
+            G = np.asarray(V.reals("G", (n, n)))
+            B = G @ G.T
+            for i in range(n):
+                B[i, i] = B[i, i] + 1
+    D = np.array([[W[0], 0], [0, W[1]]], dtype=object if V.symbolic else float)
+    A = Q @ D @ Qinv
+    if B is not None:
+        A = B @ A
+    A = wrap(np.asarray(A, dtype=object)) if V.symbolic else np.asarray(A, dtype=float)
+    if V.symbolic and not cfg.get("sym", False):
+        V.assume(A[0, 1] != A[1, 0], "general class: A not symmetric (the symmetric class has its own items)")
+    sigs = [pym.Signal("A", A)]
+    if B is not None:
+        sigs.append(pym.Signal("B", wrap(np.asarray(B, dtype=object)) if V.symbolic else np.asarray(B, dtype=float)))
+    m = pym.EigenSolve(sigs)
+    if V.symbolic:
+        from symx import factor
+        c = V.c
+        # the module skips modes whose seeds are all zero: keep the generic branch (partial seeding has its own items)
+        c.seed_nonzero = True
+        factor.register("eig", (wrap(np.asarray(W, dtype=object)), wrap(np.asarray(Q, dtype=object))))
+    return Setup(m, sigs, notes=["EigenSolve: A defined from free eigen-data (pre-image); LAPACK = oracle returning that data"])
+
+
+BUILDERS = dict(eigensolve=b_eigensolve, einsum=b_einsum, mathgeneral=b_mathgeneral, concat=b_concat, scaling=b_scaling, complex=b_complex,
                 aggregation=b_aggregation, assemble=b_assemble, elemop=b_elemop, nodalop=b_nodalop,
                 filterconv=b_filterconv, densityfilter=b_densityfilter, overhang=b_overhang,
                 linsolve=b_linsolve, inverse=b_inverse, sysofeq=b_sysofeq, statcond=b_statcond)
@@ -627,6 +679,12 @@ def module_grid(tier):
     add("sysofeq", "n3-presonly", n=3, free=[1, 2], given="prescribed", mclass="symmetric")
     add("sysofeq", "n3-general", n=3, free=[0, 2], mclass="general")
     add("sysofeq", "n3-dense", n=3, free=[0, 2], mclass="symmetric", sparse=False)
+    add("eigensolve", "n2-general", max_paths=40, twin_abs=True)
+    add("eigensolve", "n2-symmetric", sym=True, max_paths=40, twin_abs=True)
+    add("eigensolve", "n2-general-lambda-only", seeded=[0], max_paths=40, twin_abs=True)
+    add("eigensolve", "n2-symmetric-vectors-only", sym=True, seeded=[1], max_paths=40, twin_abs=True)
+    if not q:
+        add("eigensolve", "n2-generalised", gen=True, max_paths=40, twin_abs=True)
     add("statcond", "n3-m0-f12", n=3, main=[0], free=[1, 2], mclass="symmetric")
     add("statcond", "n3-m02-f1", n=3, main=[0, 2], free=[1], mclass="symmetric")
     add("statcond", "n4-m0-f12", n=4, main=[0], free=[1, 2], mclass="symmetric")
